@@ -1897,6 +1897,54 @@ def gmrf_inf_path(fail_at):
                          "bit-identically, the logged row is (target, parameters) of the restored state" % (fail_at, [p.id for p, c in zip(params, changed) if c])}
 
 
+def gmrf_draw_consistent():
+    """bounded stand-in for the GMRF block update's Hastings ratio: the forward density the operator reports is that of
+    N(mu, QW^-1) with QW = U^T U (U the Cholesky factor it computes); the field it PROPOSES must be drawn from that very
+    distribution, i.e. x' = mu + U^-1 z.  Two runs from the same state with the same precision draw and different z:
+    U (x'_1 - x'_2) must equal z_1 - z_2, and the reported forward log densities must differ by -(z1.z1 - z2.z2)/2."""
+    import importlib
+    gmod = importlib.import_module("torchtree.inference.mcmc.gmrf_block_updating")
+    runs = []
+    real_chol = torch.linalg.cholesky
+    for k, zs in enumerate(([0.3, -1.1, 0.7, 0.2], [-0.8, 0.4, 1.3, -0.5])):
+        w = real_world("GMRFPiecewiseCoalescentBlockUpdatingOperator")
+        op, field = w["op"], w["params"][0]
+        chols = []
+
+        def chol(A, *a, **kw):
+            U = real_chol(A, *a, **kw)
+            chols.append((A.detach().clone(), U.detach().clone(), kw.get("upper", False)))
+            return U
+        z = torch.tensor(zs, dtype=field.tensor.dtype)
+        with _module_names(gmod, torch=_NS(torch, linalg=_NS(torch.linalg, cholesky=chol), randn=lambda *a, **kw: z.clone(),
+                                           rand=lambda *a, **kw: torch.tensor([0.37]))):
+            h = op._step()
+        if not chols:
+            raise Undecided("the operator no longer calls torch.linalg.cholesky: the draw cannot be related to its density this way")
+        runs.append((z, _snap(field.tensor), chols[0], float(h)))
+    (z1, x1, (A1, U1, up1), h1), (z2, x2, (A2, U2, up2), h2) = runs
+    if not torch.allclose(A1, A2):
+        raise Undecided("the two runs did not factorise the same matrix (state or precision draw differs)")
+    U = U1 if up1 else U1.t()     # upper factor: QW = U^T U
+    if not torch.allclose(U.t() @ U, A1, atol=1e-10):
+        raise Undecided("captured factor is not a Cholesky factor of the captured matrix")
+    lhs, rhs = U @ (x1 - x2), z1 - z2
+    if not torch.allclose(lhs, rhs, atol=1e-8):
+        raise Refuted("GMRF block update: the proposed field is not drawn from the distribution whose density enters the Hastings ratio: "
+                      "U(x'_1 - x'_2) = %s but z_1 - z_2 = %s (QW = U^T U)" % (lhs.tolist(), rhs.tolist()),
+                      witness={"z1": z1.tolist(), "z2": z2.tolist(), "x1": x1.tolist(), "x2": x2.tolist()},
+                      replay={"kind": "custom", "contract": "C15", "func": "replay_gmrf_draw", "args": {}}, confirmed=True)
+    return {"backend": "concrete (bounded)", "cases": 2, "statement": "x' = mu + U^-1 z for the factor U whose diagonal enters the reported forward density"}
+
+
+def replay_gmrf_draw(args):
+    try:
+        gmrf_draw_consistent()
+    except Refuted as e:
+        return False, e.detail
+    return True, "held"
+
+
 def replay_gmrf_inf(args):
     try:
         gmrf_inf_path(args["fail_at"])
@@ -2320,6 +2368,7 @@ def obligations(tier, seed):
     obs.append(Ob("C15.restore.real[HMCOperator,all-trials-fail]", "U", hmc_failure_path, clause=R, funcs=F, timeout=120))
     for k in (1, 2):
         obs.append(Ob("C15.gmrf.inf_path[cholesky#%d]" % k, "U", (lambda k=k: gmrf_inf_path(k)), clause="failure sentinel +inf is rejected and restored", funcs=F, timeout=120))
+    obs.append(Ob("C15.gmrf.draw_consistent", "B", gmrf_draw_consistent, clause="GMRF block update: proposal drawn from the distribution its Hastings density describes (bounded)", funcs=F, timeout=120))
     # logged rows / whole runs
     L = "every logged row is self-consistent"
     iters = 3000 if thorough else 300
